@@ -51,6 +51,7 @@ def shards(tier, seed):
         for i in range(3):
             out.append({"part": "hijri", "years": hy[i::3]})
     out.append({"part": "unmemoised"})
+    out.append({"part": "mixed"})
     return out
 
 
@@ -109,6 +110,11 @@ def jalali_forms(y, m, d, g, full, rnd):
     forms.append(("time-hhmm", g.replace(hour=10, minute=45), "%d %s %d 10:45" % (d, mname, y)))
     forms.append(("time-words", g.replace(hour=10, minute=45), "%d %s %d ساعت 10 و 45 دقیقه" % (d, mname, y)))
     forms.append(("time-hms-persian-digits", g.replace(hour=19, minute=5, second=30), pers("%d %s %d 19:05:30" % (d, mname, y))))
+    # the worded clock with one-digit components, with seconds, in Persian digits
+    forms.append(("time-words-1digit", g.replace(hour=9, minute=5), "%d %s %d ساعت 9 و 5 دقیقه" % (d, mname, y)))
+    forms.append(("time-words-mixed", g.replace(hour=9, minute=5), "%d %s %d ساعت 9 و 05 دقیقه" % (d, mname, y)))
+    forms.append(("time-words-seconds", g.replace(hour=11, minute=1, second=7), "%d %s %d ساعت 11 و 01 دقیقه و 7 ثانیه" % (d, mname, y)))
+    forms.append(("time-words-persian-digits", g.replace(hour=7, minute=5), pers("%04d/%02d/%02d ساعت 7 و 05 دقیقه" % (y, m, d))))
     return forms
 
 
@@ -210,6 +216,31 @@ def run_hijri(ctx, desc):
             ctx.sample({"hijri_year": y, "forms": ["%04d/%02d/%02d" % (y, 9, 30), "30-09-%04d 09:05 مساءً" % y]})
 
 
+def run_mixed(ctx):
+    """Both calendars in one process, on the same (year, month, day) numbers, in both orders: a date converted for one
+    calendar must not be answered for the other."""
+    from convertdate import persian
+    from hijridate import Hijri
+
+    rnd = rng(ctx.seed, "C15mixed", 0)
+    n = 0
+    for y in range(1343, 1501, 1 if ctx.tier == "thorough" else 3):
+        for _ in range(2):
+            m, d = rnd.randrange(1, 13), rnd.randrange(13, 30)
+            if d > Hijri(y, m, 1).month_length() or d > persian.month_length(y, m):
+                continue
+            gj = datetime(*persian.to_gregorian(y, m, d))
+            gh = datetime(*Hijri(y, m, d).to_gregorian().datetuple())
+            s = "%04d/%02d/%02d" % (y, m, d)
+            order = [("jalali", gj), ("hijri", gh)]
+            if n % 2:
+                order.reverse()
+            for cal, exp in order:
+                check(ctx, cal, "mixed:num/", exp, s)
+            n += 1
+    ctx.count("mixed_calendar_pairs", n)
+
+
 def run_unmemoised(ctx):
     """A small sample with the astronomical function left alone must agree with the memoised runs' oracle."""
     import importlib
@@ -235,6 +266,9 @@ def run_shard(ctx, desc):
     try:
         if desc["part"] == "unmemoised":
             run_unmemoised(ctx)
+        elif desc["part"] == "mixed":
+            memoise()
+            run_mixed(ctx)
         else:
             memoise()
             if desc["part"] == "jalali":
@@ -257,6 +291,8 @@ def finalize(merged, tier, seed):
         inc.append("Hijri walk covered %d years" % c.get("hijri_years", 0))
     if c.get("unmemoised_agree", 0) < 50 and not c.get("violation:calendar-conversion"):
         inc.append("un-memoised sample incomplete")
+    if c.get("mixed_calendar_pairs", 0) < 50:
+        inc.append("mixed-calendar part covered only %d date pairs" % c.get("mixed_calendar_pairs", 0))
     if not c.get("jalali_leap_years"):
         inc.append("no Jalali leap year (Esfand 30) in the walk")
     return {"inconclusive": inc, "anchors_hit": {k[7:]: v for k, v in c.items() if k.startswith("anchor:")},
